@@ -124,6 +124,23 @@ fn cli_roundtrips(ctx: &Ctx) {
         let mut stderr = String::new();
         let what;
         match mode {
+            0 if li % 2 == 1 => {
+                what = "files, sender and recipient are the same key";
+                let e = Cmd::new(&wd.path, &["encrypt", "plain.bin", "-t", "alice", "-f", "alice", "-o", "c.ktl", "-k", "kr.txt", "--env-pass"]).pass("apw").run();
+                let d = Cmd::new(&wd.path, &["decrypt", "c.ktl", "-t", "alice", "-o", "p.out", "-k", "kr.txt", "--env-pass"]).pass("apw").run();
+                stderr = format!("{} | {}", e.stderr_s(), d.stderr_s());
+                let c = std::fs::read(wd.file("c.ktl")).unwrap_or_default();
+                let refok = matches!(refspec::decode_key_file(&c, &alice.sk, &alice.pk), Ok(x) if x.body.complete() && x.body.plaintext() == pt && x.sender == alice.pk);
+                let got = if e.exit == Exit::Code(0) && d.exit == Exit::Code(0) { std::fs::read(wd.file("p.out")).unwrap_or_default() } else { b"<command failed>".to_vec() };
+                ctx.eval();
+                if got == pt && refok && stderr.contains("File from: alice") {
+                    ctx.seen("cli round trip ok: files, sender and recipient are the same key");
+                    ctx.distinct(&format!("cli|self|{}", len));
+                } else {
+                    ctx.violation("C01:cli:round-trip-to-oneself-fails", json!({"len": len, "stderr": stderr, "decrypted_len": got.len()}));
+                }
+                return;
+            }
             0 => {
                 what = "files, fresh output paths";
                 let e = Cmd::new(&wd.path, &["encrypt", "plain.bin", "-t", "bob", "-f", "alice", "-o", "c.ktl", "-k", "kr.txt", "--env-pass"]).pass("apw").run();
@@ -179,7 +196,7 @@ pub fn run(ctx: &Ctx) {
     ctx.assume("only conforming readers/writers are modelled (never return more than requested, Ok(0) only at EOF)");
 
     // ---- small scope, exhaustive ----
-    let max_len = ctx.tier.pick(12, 15);
+    let max_len = ctx.tier.pick(12, 16);
     small_scope_block(ctx, "C01", &[], max_len, 4);
     ctx.note("small_scope", json!({"max_len": max_len, "max_chunk_size": 4, "exhaustive": true, "exhaustive_over": "all read partitions of every length"}));
     counter_crossing(ctx, "C01", &[], ctx.tier.pick(66_000, 140_000));
@@ -187,12 +204,12 @@ pub fn run(ctx: &Ctx) {
     // ---- production size ----
     let mut lengths: Vec<usize> = PROD_LENGTHS.to_vec();
     let mut rng = Rng::fork(ctx.seed, "C01-prod-lengths");
-    let nrand = ctx.tier.pick(12, 80);
+    let nrand = ctx.tier.pick(12, 300);
     for _ in 0..nrand {
         lengths.push(rng.range(3, 400 * 1024));
     }
     if ctx.tier == Tier::Thorough {
-        lengths.extend_from_slice(&[262143, 262144, 262145, 65536 * 5, 65536 * 8 + 1]);
+        lengths.extend_from_slice(&[262143, 262144, 262145, 65536 * 5, 65536 * 8 + 1, 65536 * 16, 65536 * 33 + 7, 4 << 20]);
     }
     let edge = edge_scalars();
     par_for(lengths.len(), crate::util::ncpu(), |i| {
@@ -215,7 +232,12 @@ pub fn run(ctx: &Ctx) {
                     continue;
                 }
                 n += 1;
-                let k = if n % 5 == 0 {
+                let k = if n % 7 == 3 {
+                    // sender and recipient are the same key pair (encrypting to oneself)
+                    let s_priv = rng.arr32();
+                    let s_pub = refspec::pubkey_of(&s_priv);
+                    Keys { s_priv, s_pub, r_priv: s_priv, r_pub: s_pub }
+                } else if n % 5 == 0 {
                     let s_priv = edge[n / 5 % edge.len()];
                     let r_priv = edge[(n / 5 + 1) % edge.len()];
                     Keys { s_priv, s_pub: refspec::pubkey_of(&s_priv), r_priv, r_pub: refspec::pubkey_of(&r_priv) }
@@ -252,6 +274,7 @@ pub fn run(ctx: &Ctx) {
     cli_roundtrips(ctx);
     ctx.require("cli round trip ok: files, output paths that already hold longer content", 4);
     ctx.require("cli round trip ok: pipes", 4);
+    ctx.require("cli round trip ok: files, sender and recipient are the same key", 2);
     ctx.require("prod: chunks=", 50);
     ctx.require("small: chunks=", 500);
 }
